@@ -27,9 +27,9 @@ MC_CONSTS = {
                        MultCounts="Mult2", MaxDepth=2, MaxOpen=1, EmitAll="FALSE"),
     "thorough_mult": dict(MaxLen=8, NodeToks="Nodes2", SymToks="SymQuick", RingToks="Rings1",
                           MultCounts="Mult13", MaxDepth=2, MaxOpen=1, EmitAll="FALSE"),
-    "quick_fault": dict(MaxLen=6, NodeToks="NodesF", SymToks="SymOne", RingToks="Rings2",
+    "quick_fault": dict(MaxLen=4, NodeToks="NodesF", SymToks="SymOne", RingToks="Rings2",
                         MultCounts="NoMult", MaxDepth=1, MaxOpen=2, EmitAll="TRUE"),
-    "thorough_fault": dict(MaxLen=7, NodeToks="NodesF", SymToks="SymOne", RingToks="Rings3",
+    "thorough_fault": dict(MaxLen=5, NodeToks="NodesF", SymToks="SymOne", RingToks="Rings3",
                            MultCounts="NoMult", MaxDepth=2, MaxOpen=2, EmitAll="TRUE"),
     "sim": dict(MaxLen=40, NodeToks="Nodes4", SymToks="SymAll", RingToks="Rings4",
                 MultCounts="NoMult", MaxDepth=4, MaxOpen=4, EmitAll="FALSE"),
@@ -332,3 +332,34 @@ def graph_fault_records(check, tier):
             seen.add(s)
             uniq.append(tk)
     return [read_record(tk) for tk in uniq]
+
+
+def run_c20_graph(check, tier):
+    records = graph_fault_records(check, tier)
+    verdicts = validate(check, records)
+
+    def nontrivial(rec, v):
+        return v.get("expected") != "ok"
+    judge(check, "C20", records, verdicts, C20_CLAUSES, nontrivial)
+    kinds = {}
+    for rec, v in zip(records, verdicts):
+        if v.get("dom") and v.get("expected") != "ok":
+            k = v.get("fault") or v.get("annerr")
+            kinds[k] = kinds.get(k, 0) + 1
+    check.extra["graph_faults_by_kind"] = kinds
+
+
+def run_c20(tier):
+    check = Check("C20", tier=tier)
+    check.rule = ("CGGraphMC fault mode (every complete string of the bounded grammar incl. those ending in a "
+                  "dangling ring index / duplicate ring bond / faulty annotation) + single-fault injections at "
+                  "seeded positions of simulated long strings; expected outcome computed by the spec "
+                  "(CGGraph!Fault, Annot!BindError); non-trivial = the spec expects an error")
+    run_c20_graph(check, tier)
+    try:
+        from . import resolve
+        if hasattr(resolve, "run_c20_resolver"):
+            resolve.run_c20_resolver(check, tier)
+    except ImportError:
+        pass
+    return check.finish()
